@@ -4,8 +4,9 @@
 usage: sweep_seeded.py [name ...]   (default: every kept change)   -> /verif/seeded/RESULTS.json"""
 import json, os, subprocess, sys, shutil, re, time
 
-WT = "/tmp/confirm_wt"
-SW = "/tmp/sweep"
+WT = os.environ.get("SWEEP_WT", "/tmp/confirm_wt")
+SW = os.environ.get("SWEEP_DIR", "/tmp/sweep")
+RES = os.environ.get("SWEEP_RESULTS", "/verif/seeded/RESULTS.json")
 ENV = dict(os.environ, CARGO_NET_OFFLINE="true", RUSTFLAGS="--cfg assets_manager_verif", VERIF_DIR=SW)
 
 def sh(cmd, cwd, timeout=1800):
@@ -62,8 +63,8 @@ def main():
     setup()
     names = sys.argv[1:] or sorted(d for d in os.listdir("/verif/seeded") if os.path.isfile(f"/verif/seeded/{d}/meta.json"))
     results = {}
-    if os.path.exists("/verif/seeded/RESULTS.json"):
-        results = json.load(open("/verif/seeded/RESULTS.json"))
+    if os.path.exists(RES):
+        results = json.load(open(RES))
     for name in names:
         d = f"/verif/seeded/{name}"
         meta = json.load(open(f"{d}/meta.json"))
@@ -88,6 +89,6 @@ def main():
             results[name].setdefault("also", {})[other] = {"exit": rc2, "secs": round(time.time() - t0, 1), "output": lines2[:4]}
             print(name, "also", other, rc2, lines2[:2], flush=True)
         sh("git checkout -- .", WT)
-        json.dump(results, open("/verif/seeded/RESULTS.json", "w"), indent=1)
+        json.dump(results, open(RES, "w"), indent=1)
 
 main()
